@@ -1198,7 +1198,12 @@ namespace fixedmath
   inline fixed_t sin_angle_aprox(int32_t angle) noexcept
     {
     if(fixed_unlikely(angle < 0 || angle > 360) )
+      {
       angle = angle % 360;
+      //remainder of negative angle is negative and must not be used as table index
+      if( angle < 0 )
+        angle += 360;
+      }
     return sin_angle_tab(angle);
     }
 
@@ -1210,7 +1215,12 @@ namespace fixedmath
   inline fixed_t cos_angle_aprox(int32_t angle) noexcept
     {
     if( fixed_unlikely( angle < 0 || angle > 360) )
+      {
       angle = angle % 360;
+      //remainder of negative angle is negative and must not be used as table index
+      if( angle < 0 )
+        angle += 360;
+      }
     return cos_angle_tab(angle);
     }
     
